@@ -146,6 +146,85 @@ MUTANTS = {
 """,
         "then/else bodies exchanged when the then body has more than three nodes",
     ),
+    # --- the two classes of the held-out mutants that the first version of the check missed
+    "C1a-lca-cousins-at-different-depth-go-to-root": (
+        "src/spox/_build.py",
+        """            vis_a, vis_b = {a}, {b}
+            while a not in vis_b:
+""",
+        """            def chain(g):
+                out = [g]
+                while self.parent(out[-1]) is not out[-1]:
+                    out.append(self.parent(out[-1]))
+                return out
+
+            ca, cb = chain(a), chain(b)
+            if a in cb:
+                return a
+            if b in ca:
+                return b
+            while a is not b:  # walks both up in lockstep: right only for cousins of equal depth
+                a, b = self.parent(a), self.parent(b)
+            return a
+            vis_a, vis_b = {a}, {b}
+            while a not in vis_b:
+""",
+        "lca handles ancestors and equal-depth cousins, sends cousins of different depth to the root",
+    ),
+    "C1b-no-relaxation-when-met-from-a-shallower-graph": (
+        "src/spox/_build.py",
+        """            self.scope_tree.scope_of[node] = self.scope_tree.lca(
+                graph, self.scope_tree.scope_of[node]
+            )
+""",
+        """            def depth(g):
+                d = 0
+                while self.scope_tree.parent(g) is not g:
+                    g, d = self.scope_tree.parent(g), d + 1
+                return d
+
+            cur = self.scope_tree.scope_of[node]
+            if depth(graph) >= depth(cur) or self.scope_tree.lca(graph, cur) is graph:
+                self.scope_tree.scope_of[node] = self.scope_tree.lca(graph, cur)
+""",
+        "a value first placed in a deeper graph is not relaxed when met again from a shallower cousin",
+    ),
+    "C1c-parent-of-a-scope-memoised": (
+        "src/spox/_build.py",
+        """            return (
+                self.scope_of[self.subgraph_owner[graph]]
+                if graph in self.subgraph_owner
+                else graph
+            )
+""",
+        """            if not hasattr(self, "_memo"):
+                self._memo = {}
+            if graph not in self._memo:
+                self._memo[graph] = (
+                    self.scope_of[self.subgraph_owner[graph]]
+                    if graph in self.subgraph_owner
+                    else graph
+                )
+            return self._memo[graph]
+""",
+        "ScopeTree.parent memoised: stale once the owner of a body is relaxed to an outer scope later (order-sensitive)",
+    ),
+    "C2-tensors-kept-and-serialised-in-memory-order": (
+        [
+            ("src/spox/_attributes.py", "        super().__init__(value.copy(), name)\n\n    def _to_onnx_deref(self) -> AttributeProto:\n        return make_attribute(self._name, from_array(self.value))",
+             "        super().__init__(value.copy(order=\"K\"), name)\n\n    def _to_onnx_deref(self) -> AttributeProto:\n        return make_attribute(self._name, from_array(self.value))"),
+            ("src/spox/_utils.py", "        ).flatten(),\n", "        ).flatten(order=\"K\"),\n"),
+        ],
+        "tensor attributes keep the source's memory layout and are flattened in memory order (transposed / Fortran sources are permuted)",
+    ),
+    "C2b-raw-bytes-of-the-buffer": (
+        [
+            ("src/spox/_attributes.py", "        super().__init__(value.copy(), name)\n\n    def _to_onnx_deref(self) -> AttributeProto:\n        return make_attribute(self._name, from_array(self.value))",
+             "        super().__init__(value.copy(order=\"A\"), name)\n\n    def _to_onnx_deref(self) -> AttributeProto:\n        return make_attribute(self._name, from_array(self.value))"),
+            ("src/spox/_utils.py", "        ).flatten(),\n", "        ).ravel(order=\"A\"),\n"),
+        ],
+        "copy(order='A') + ravel(order='A'): Fortran-contiguous sources are written column-major",
+    ),
     # --- subtler ones (aimed at passing the repository's own suite)
     "S1-hoist-one-scope-too-far": (
         "src/spox/_build.py",
